@@ -251,6 +251,46 @@ def scripted_logout_of_unavailable_admin(g):
     g.tags.add("logout-of-unavailable-admin-scenario")
 
 
+def scripted_special_won_then_electorate_change(g):
+    """a special proposal (freeze / activate / logout of any object, role and strategy proposals) has enough ordinary approvals
+    but the super administrator has not voted, so it stays open; then one of its electors changes status (freeze, or a logout
+    request), which makes the governance contract re-evaluate it: it may not be rejected while its rule is satisfied"""
+    r = g.r
+    c = r.choice(["c1", "c2", "c4"])
+    call, kind, mod, obj = r.choice([
+        (f"appchain FreezeAppchain s:{c} s:reason", "appchain-freeze", "appchain", c),
+        (f"service FreezeService s:{c}:s1 s:reason", "service-freeze", "service", f"{c}:s1"),
+        ("strategy UpdateProposalStrategy s:appchain_mgr s:SimpleMajority s:a\\_>=\\_3 s:reason", "strategy-update", "strategy", "appchain_mgr"),
+    ])
+    g.submit("adm1", call, kind, mod, obj)
+    p1 = g.props[-1][0]
+
+    def roles():
+        for a in ADMINS:
+            g.ops.append(f"q obj role @{a}")
+    for v in ["adm1", "adm2", "adm3"]:
+        roles()
+        g.ops.append(f"q prop {p1}")
+        g.ops.append(f"block bvm {v} gov Vote s:{p1} s:approve s:r")
+        g.ops.append(f"q prop {p1}")
+    x = r.choice(["adm2", "adm3"])
+    op = r.choice(["FreezeRole", "FreezeRole", "LogoutRole"])
+    g.submit("adm0", f"role {op} s:@{x} s:reason", "role-" + op[:-4].lower(), "role", "@" + x)
+    ref = g.props[-1][0]
+    roles()
+    g.ops.append(f"q prop {p1}")
+    for v in [a for a in ADMINS if a != x]:
+        roles()
+        g.ops.append(f"q prop {ref}")
+        g.ops.append(f"block bvm {v} gov Vote s:{ref} s:approve s:r")
+        g.ops.append(f"q prop {ref}")
+        roles()
+        g.ops.append(f"q prop {p1}")
+    if mod != "strategy":
+        g.ops.append(f"q obj {mod} {obj}")
+    g.tags.add("special-won-then-electorate-change")
+
+
 def scripted_priority(g):
     """concurrent proposals on one object with different priorities: a freeze (priority 2) is proposed, then a logout
     (priority 3) of the same object pauses it; the paused proposal is withdrawn / voted on / left alone; the logout is
@@ -320,6 +360,8 @@ def gen_c15(rng, n, tier):
             scripted_paused_electorate(g)
         elif k0 < 0.57:
             scripted_logout_of_unavailable_admin(g)
+        elif k0 < 0.66:
+            scripted_special_won_then_electorate_change(g)
         g.propose()
         for _ in range(r.randint(6, 22)):
             k = r.random()
